@@ -516,8 +516,18 @@ impl Ranking {
                 }
             }
         }
-        let v = if a2.len() < 8 { gen::rand_word(&mut cx.rng, &a2, 5, 9) } else { v };
-        let x = if a3.len() < 8 { gen::rand_word(&mut cx.rng, &a3, 3, 8) } else { x };
+        if lang == "xc" && cx.rng.chance(1, 3) {
+            // a word the language tags as pronoun / interjection / noun / verb / adjective / adverb: none of these is a
+            // function-word kind, so every rule applies to it as to any other word
+            let cand = cx.rng.pick(&XC_TAGGED_CONTENT).0.to_string();
+            let all: Vec<char> = cv("abcdefghijklmnopqrstuvwxyz").into_iter().filter(|c| !cand.contains(*c)).collect();
+            u = cand;
+            a2 = all[..all.len() / 2].to_vec();
+            a3 = all[all.len() / 2..].to_vec();
+            cx.count("u tagged with a part of speech that is not a function-word kind");
+        }
+        let v = if a2.len() < 8 || lang == "xc" { gen::rand_word(&mut cx.rng, &a2, 5, 9) } else { v };
+        let x = if a3.len() < 8 || lang == "xc" { gen::rand_word(&mut cx.rng, &a3, 3, 8) } else { x };
         if with_lang(lang, |l| { let t = gen::tok_record(l, &u); t.words.len() == 1 && t.words[0].is_function() }) && !listed.contains(&crate::oracle::norm_word(lang, &u)) {
             cx.count("build treats an unlisted word as a function word");
         }
@@ -819,7 +829,7 @@ impl Ranking {
 
 /// Single-word function words (frozen list, DESIGN.md Appendix A).
 pub fn function_words(lang: &str) -> Vec<&'static str> {
-    match lang {
+    match base_lang(lang) {
         "en" => vec!["a", "an", "the", "to", "of", "in", "for", "and", "on", "at", "by", "or", "as", "if", "so", "from", "into", "but", "not"],
         "de" => vec!["der", "die", "das", "für", "zu", "an", "auf", "und", "mit", "in", "ja", "bloß", "während"],
         "es" => vec!["el", "la", "de", "y", "con", "para", "en", "un", "a", "o", "más", "próximo", "vía"],
@@ -860,7 +870,7 @@ impl Prop for Ranking {
         match self.0 {
             Which::Verdicts => vec![("truncated (more matches than limit)", 200, 2000), ("beyond the 10x cap (soundness only)", 100, 1000), ("limit 0", 50, 500), ("selection buffer refilled (matches >= 2*limit)", 100, 1000), ("store with tied ratings (set comparison)", 50, 500), ("empty query", 50, 500), ("corpus-store searches", 100, 2000), ("corpus-store searches compared with the unlimited corpus store", 10, 200), ("large stores (limit 50-200)", 400, 8000), ("large stores whose match count is an exact multiple of the limit", 20, 400), ("stores of more than 2048 records", 8, 160), ("stores of 66-260 records", 300, 3000), ("stores built in stages with searches and limit changes in between", 3000, 30000), ("configurations whose reference stores live on threads of their own", 1500, 15000)],
             Which::Order => vec![("pair stores", 2000, 20000), ("permuted stores", 2000, 20000), ("searches with >= 2 hits", 300, 3000), ("truncated lists compared across permutations", 30, 300), ("stores of similar words", 500, 5000), ("pairs involving a hit ranked 7th or lower", 300, 3000), ("large stores (limit 50-200)", 200, 4000), ("stores of more than 2048 records", 4, 80), ("stores with ratings in [2^31, 2^32)", 200, 2000), ("stores with ratings spread over the whole usize range", 100, 1000), ("configurations whose reference stores live on threads of their own", 200, 2000)],
-            Which::Rules => vec![("rule exact>typo", 500, 5000), ("rule both>one", 500, 5000), ("rule prefix: exact>tail", 500, 5000), ("rule adjacent>gap", 500, 5000), ("rule first>second", 500, 5000), ("rule identical titles: rating decides", 300, 3000), ("rule equal rating: shorter title first", 300, 3000), ("rule function word: content word first", 1000, 10000), ("u made of two function words run together", 300, 3000), ("rule cases with a third, unrelated record", 20000, 200000), ("identical titles with ratings 1-3 apart", 1000, 10000), ("tails of 13-70 letters", 500, 5000)],
+            Which::Rules => vec![("rule exact>typo", 500, 5000), ("rule both>one", 500, 5000), ("rule prefix: exact>tail", 500, 5000), ("rule adjacent>gap", 500, 5000), ("rule first>second", 500, 5000), ("rule identical titles: rating decides", 300, 3000), ("rule equal rating: shorter title first", 300, 3000), ("rule function word: content word first", 1000, 10000), ("u made of two function words run together", 300, 3000), ("rule cases with a third, unrelated record", 20000, 200000), ("identical titles with ratings 1-3 apart", 1000, 10000), ("tails of 13-70 letters", 500, 5000), ("u tagged with a part of speech that is not a function-word kind", 150, 1500)],
             Which::Empty => vec![("searches after further adds", 1000, 10000), ("truncated lists with tied ratings", 500, 5000), ("stores with distinct ratings", 500, 5000), ("limit 0", 100, 1000), ("stores of 13-60 records", 1000, 10000), ("stores whose titles share a prefix of 20-40 characters", 1500, 15000), ("stores with adjacent ratings above 2^24", 1000, 10000), ("searches after a limit change", 1000, 10000)],
         }
     }
